@@ -276,6 +276,15 @@ abbrev closeOps (p : Product) (from_ : Nat) (v : VaultRec) : List BankOp :=
    .sendPos vm cm p.denomOut v.interest, .sendPos vm cm p.denomOut v.closingFee,
    .burnPos p.denomOut v.amountOut, .sendPos vm from_ p.denomIn v.amountIn]
 
+/-- liquidationsV2 `LiquidateIndividualVault` hand-over (liquidate.go:141-146, the transfer at 142) -/
+abbrev seizeOps (p : Product) (v : VaultRec) : List BankOp := [.sendPos vm am p.denomIn v.amountIn]
+
+/-- x/esm `SetUpCollateralRedemptionForVault`, one vault (esm.go:407, 442) -/
+abbrev esmVaultOps (p : Product) (v : VaultRec) : List BankOp := [.sendPos vm em p.denomIn v.amountIn]
+
+/-- x/esm `SetUpCollateralRedemptionForStableVault`, one stable-mint vault (esm.go:520, 559) -/
+abbrev esmStableOps (p : Product) (amountIn : Int) : List BankOp := [.sendPos vm em p.denomIn amountIn]
+
 /-- MsgCreateStableMint / MsgDepositStableMint (msg_server.go:1031-1076, 1199-1244); `out` = the minted amount -/
 abbrev stableMintOps (p : Product) (from_ : Nat) (amt out : Int) : List BankOp :=
   .send from_ vm p.denomIn amt :: mintAndSplit p from_ out
@@ -487,7 +496,7 @@ def seize (s : State) (p : Product) (e : Env) (vaultId : Nat) : Option State :=
   match findVault s vaultId, e.iota with
   | some v, some i =>
     if v.product ≠ p.id ∨ i < 0 then none else
-      (runBank s [.sendPos vm am p.denomIn v.amountIn]).map fun s1 =>
+      (runBank s (seizeOps p v)).map fun s1 =>
         { s1 with vaults := delVault s1.vaults v.id, length := s1.length - 1,
                   locked := s1.locked ++ [{ vaultId := v.id, product := v.product, amountIn := v.amountIn, amountOut := v.amountOut,
                                             debt := v.amountOut + (v.interest + i) + v.closingFee }],
@@ -535,7 +544,7 @@ def esmVault (s : State) (p : Product) (e : Env) (vaultId : Nat) : Option State 
   | none => none
   | some v =>
     if v.product ≠ p.id ∨ ¬ (e.esm = true ∧ e.pastCoolOff = true) then none else
-    (runBank s [.sendPos vm em p.denomIn v.amountIn]).map fun s1 =>
+    (runBank s (esmVaultOps p v)).map fun s1 =>
       { s1 with vaults := delVault s1.vaults v.id, length := s1.length - 1,
                 coll := upd1 s1.coll p.id (s1.coll p.id - v.amountIn),
                 minted := upd1 s1.minted p.id (s1.minted p.id - v.amountOut),
@@ -552,7 +561,7 @@ def esmStable (s : State) (p : Product) (e : Env) (stableId : Nat) : Option Stat
   | none => none
   | some r =>
     if r.product ≠ p.id ∨ ¬ (e.esm = true ∧ e.pastCoolOff = true) then none else
-    (runBank s [.sendPos vm em p.denomIn r.amountIn]).map fun s1 =>
+    (runBank s (esmStableOps p r.amountIn)).map fun s1 =>
       { s1 with coll := upd1 s1.coll p.id (s1.coll p.id - r.amountIn),
                 minted := upd1 s1.minted p.id (s1.minted p.id - r.amountOut),
                 vaultIds := updL s1.vaultIds p.id ((s1.vaultIds p.id).erase r.id),
